@@ -119,6 +119,7 @@ func (x *extractor) simplify(list []*node, inLoop bool) []*node {
 			if m.cond.kind == "unknown" && (hasGroupOps(m.body) || hasGroupOps(m.els)) {
 				x.problem(n.pos, "unrecognised guard around group operations")
 			}
+			x.canonIf(&m)
 			out = append(out, &m)
 			last = nil
 			continue
@@ -191,6 +192,31 @@ func (x *extractor) simplify(list []*node, inLoop bool) []*node {
 	return out
 }
 
+// canonIf brings a guard to its canonical shape:
+//
+//	if c {} else {B}            =  if !c {B}
+//	if c {A} else {B}           =  if !c {B} else {A}     (the positive literal comes first)
+//	if a { if b {A} }           =  if a && b {A}
+//
+// (`if`/`else if` chains and switches are already the same tree.)
+func (x *extractor) canonIf(m *node) {
+	if m.cond == nil || m.cond.kind == "unknown" {
+		return
+	}
+	switch {
+	case len(m.body) == 0 && len(m.els) > 0,
+		len(m.body) > 0 && len(m.els) > 0 && x.isNegativeCond(m.cond):
+		m.cond = x.negate(m.cond)
+		m.body, m.els = m.els, m.body
+	}
+	for len(m.els) == 0 && len(m.body) == 1 && m.body[0].kind == "if" && len(m.body[0].els) == 0 &&
+		m.body[0].cond != nil && m.body[0].cond.kind != "unknown" {
+		inner := m.body[0]
+		m.cond = x.join("and", m.cond, inner.cond)
+		m.body = inner.body
+	}
+}
+
 func onlyBranches(list []*node) bool {
 	for _, n := range list {
 		if n.kind != "branch" {
@@ -235,16 +261,37 @@ func mentionsAtom(x *extractor, list []*node, id string) bool {
 				return true
 			}
 		}
-		if n.cond != nil {
-			if m(n.cond.n) || (n.cond.dig != nil && (m(n.cond.dig.pos) || m(n.cond.dig.term))) {
-				return true
-			}
+		if n.cond != nil && condMentions(n.cond, m) {
+			return true
 		}
 		if mentionsAtom(x, n.body, id) || mentionsAtom(x, n.els, id) {
 			return true
 		}
 	}
 	return false
+}
+
+func condMentions(c *cond, m func(*lin) bool) bool {
+	if m(c.n) || (c.dig != nil && (m(c.dig.pos) || m(c.dig.term))) {
+		return true
+	}
+	for _, q := range c.sub {
+		if condMentions(q, m) {
+			return true
+		}
+	}
+	return false
+}
+
+func substCond(c *cond, sl func(*lin) *lin, sd func(*sval) *sval) *cond {
+	n := *c
+	n.n = sl(c.n)
+	n.dig = sd(c.dig)
+	n.sub = nil
+	for _, q := range c.sub {
+		n.sub = append(n.sub, substCond(q, sl, sd))
+	}
+	return &n
 }
 
 // substNodes returns a deep copy of list with atom id replaced by r.
@@ -279,10 +326,7 @@ func (x *extractor) substNodes(list []*node, id string, r *lin) []*node {
 			m.entry = &e
 		}
 		if n.cond != nil {
-			c := *n.cond
-			c.n = sl(n.cond.n)
-			c.dig = sd(n.cond.dig)
-			m.cond = &c
+			m.cond = substCond(n.cond, sl, sd)
 		}
 		m.body = x.substNodes(n.body, id, r)
 		m.els = x.substNodes(n.els, id, r)
@@ -546,13 +590,19 @@ func (p *printer) cond(c *cond) string {
 		s = p.digit(c.dig) + c.rel
 	case "flag":
 		s = "flag(" + c.flag + ")"
+		if c.not {
+			s = "!" + s
+		}
 	case "int":
 		s = p.nm.lin(c.n) + c.rel
+	case "and", "or":
+		var parts []string
+		for _, q := range c.sub {
+			parts = append(parts, p.cond(q))
+		}
+		s = "(" + strings.Join(parts, map[string]string{"and": " && ", "or": " || "}[c.kind]) + ")"
 	default:
 		s = "?"
-	}
-	if c.not {
-		s = "!" + s
 	}
 	return s
 }
